@@ -148,6 +148,8 @@ def pytype(v):
             return _lx._Element if v.flavour == "lxml" else _ET.Element
         if type(v).__name__ == "NumText":
             return str
+    if type(v).__module__ == "pyvc.tokstr" and type(v).__name__ in ("Atom", "TokStr"):
+        return str
     return type(v)
 
 
